@@ -139,7 +139,7 @@ META["C04"] = dict(
 META["C09"] = dict(
     design_ref="DESIGN.md section 5, C09",
     technique="Coq proofs by list induction over the delivered-tick sequence of a transducer model of the ticking loop: shape of the action sequence, requests = evaluated values, nothing after the context ends, and the cadence bound 1 + floor(e/interval) under the never-early ticker hypothesis; one-sided timing correspondence on real runs with a logging rate function, judged by the extracted predicate",
-    text="Theorems C09_loop, C09_unchanged, C09_nothing_after_done, C09_cadence: the loop evaluates the rate at once and then once per received tick, each evaluation's value is exactly the following request, nothing is evaluated or requested after the context ended, and for any scheduling delays at most 1 + floor(e/interval) evaluations happen within elapsed time e, given that the j-th received tick is not earlier than j intervals after the first evaluation.",
+    text="Theorems C09_loop, C09_unchanged, C09_nothing_after_done, C09_cadence: the loop evaluates the rate at once and then once per received tick, each evaluation's value is exactly the following request, nothing is evaluated or requested after the context ended, and for any scheduling delays at most 1 + floor(e/interval) evaluations happen within elapsed time e, given that the j-th received tick is not earlier than j intervals after the first evaluation; C09_stage_bound: a trigger of constant value k that stops evaluating dur after its first evaluation (a stage of a config file) requests at most k (1 + floor(dur/interval)) iterations - the count predicate stage_count_ok applied to real config-file stages.",
     note="Trusted: Coq kernel; the Go ticker's behaviour (never early, capacity-one channel) is a hypothesis of the cadence theorem, observed one-sidedly by the harness; wall-clock accuracy is the runtime's; extraction + driver; harness.",
 )
 
